@@ -93,3 +93,46 @@ class Tape:
         if self.replay:
             return self.values[: self.pos]
         return list(self.values)
+
+
+class ScriptTape(Tape):
+    """Enumeration tape: a fixed prefix, then every draw labelled ``label`` takes the next
+    scripted pick (0 when the script is exhausted) and every other draw is 0. The values are
+    recorded as in generate mode, so ``Tape(values=t.used())`` replays the run exactly."""
+
+    __slots__ = ("prefix", "script", "spos", "label")
+
+    def __init__(self, prefix, script, label="idle_pick"):
+        Tape.__init__(self, seed=0)
+        self.rng = None
+        self.prefix = list(prefix)
+        self.script = list(script)
+        self.spos = 0
+        self.label = label
+        self.trace = []
+
+    def _draw(self, n, label=""):
+        if self.pos < len(self.prefix):
+            v = self.prefix[self.pos]
+        elif label == self.label:
+            v = self.script[self.spos] if self.spos < len(self.script) else 0
+            self.spos += 1
+        else:
+            v = 0
+        v = 0 if n <= 1 else max(0, min(v, n - 1))
+        self.values.append(v)
+        self.pos += 1
+        return v
+
+
+def next_script(trace, label="idle_pick"):
+    """Odometer over the branching observed in a run: the next script in lexicographic order,
+    or None when every sequence below the observed branching has been visited."""
+    ns = [n for (lab, n, _v) in trace if lab == label]
+    got = [v for (lab, _n, v) in trace if lab == label]
+    k = len(ns) - 1
+    while k >= 0 and got[k] + 1 >= max(ns[k], 1):
+        k -= 1
+    if k < 0:
+        return None
+    return got[:k] + [got[k] + 1]
